@@ -72,7 +72,9 @@ def _case(draw):
     body = None
     if draw(st.booleans()):
         body = draw(_body([p["name"] for p in ir["params"] if not p["name"].endswith("kwargs")]))
-    return {"ir": ir, "body": body, "L": _TIER_L["L"]}
+    # beyond the exhaustive part: a few longer sequences (with repetitions) drawn by Hypothesis
+    extra = draw(st.lists(st.lists(st.sampled_from(OPS), min_size=5, max_size=8), min_size=2, max_size=4))
+    return {"ir": ir, "body": body, "L": _TIER_L["L"], "extra": extra}
 
 
 def strategy(mode, knob=None):
@@ -81,7 +83,7 @@ def strategy(mode, knob=None):
 
 def valid(case):
     try:
-        if not (isinstance(case, dict) and set(case) == {"ir", "body", "L"} and domain.valid_ir(case["ir"]) and case["L"] in (1, 2, 3, 4)):
+        if not (isinstance(case, dict) and set(case) - {"extra"} == {"ir", "body", "L"} and domain.valid_ir(case["ir"]) and case["L"] in (1, 2, 3, 4)):
             return False
         if case["body"] is not None:
             ast.parse("\n".join(case["body"]) or "pass")
@@ -132,8 +134,9 @@ def run_case(case):
     discs = []
     pair_fail = {}
     seen_aspects = set()
-    for n in range(1, L + 1):
-        for seq in itertools.product(usable, repeat=n):
+    longer = [tuple(op for op in seq if op in usable) for seq in case.get("extra", [])]
+    for n in list(range(1, L + 1)) + ["extra"]:
+        for seq in (itertools.product(usable, repeat=n) if n != "extra" else longer):
             shared = build_ir(case)
             for k, op in enumerate(seq):
                 evals += 1
